@@ -132,6 +132,9 @@ func parseConverter(ctx *context, rawConverter *RawConverter, global RawLines) (
 	}
 	if info, err := os.Stat(outputFile); err == nil && info.IsDir() {
 		return nil, fmt.Errorf("error parsing 'goverter:output:file' at\n    %s\n    %s\n\nthe output file is a directory:\n    %s", c.Location, c.IDString(), outputFile)
+	} else if err != nil && !os.IsNotExist(err) {
+		// e.g. a path below a regular file or a name that is too long
+		return nil, fmt.Errorf("error parsing 'goverter:output:file' at\n    %s\n    %s\n\nthe output file cannot be used:\n    %s", c.Location, c.IDString(), err)
 	}
 
 	if err := resolveExtend(ctx, c); err != nil {
